@@ -306,7 +306,7 @@ func init() {
 		U := e.universe()
 		args := []*Term{tIte(body.Nil, mkBV(8, 1), mkBV(8, 0)), toBlob(body.S)}
 		for _, u := range U {
-			h := xhas(x.S, u)
+			h := tAnd(tNot(x.Nil), tNe(x.S, nullBlob), xhas(x.S, u))
 			args = append(args, tIte(h, mkBV(8, 1), mkBV(8, 0)), tIte(h, xget(x.S, u), toBlob(mkStr(""))))
 		}
 		return ret(bytesOf(e.injUF(fmt.Sprintf("encvx%d", len(U)), SBlob, args...)))
